@@ -72,7 +72,7 @@ def _allw(n):
     return out
 
 
-ALLW = {3: _allw(3), 4: _allw(4)}
+ALLW = {2: _allw(2), 3: _allw(3), 4: _allw(4)}
 
 
 def run(chk):
@@ -105,11 +105,13 @@ def run(chk):
     for i, c in enumerate(cases):
         ws = ALLW[3 if len(c["first"]) == 4 else 4]
         # the property's domain: inputs over the terminals up to the largest terminal index the grammar uses (a = 1, b = 2)
-        used = {x for r in c["rules"] for x in _seq(r["r"])}
-        allowed = {"a", "b"} if "b" in used else {"a"} if "a" in used else set()
-        ws = [w for w in ws if set(w) <= allowed]
-        if not ws:
-            ws = [[]]
+        # inputs are arbitrary token sequences: terminals the grammar does not mention ("b" for a grammar over "a", the foreign
+        # terminal "c", a terminal with a negative index "n") belong to no sentence - in prefix mode whatever follows an accepted
+        # prefix is irrelevant, so these matter exactly there (a macro detector sees the whole rest of the program)
+        ws = list(ws)
+        for w in ALLW[2]:
+            for tail in (["c"], ["c", "a"], ["n"]):
+                ws.append(list(w) + tail)
         c["_ws"] = ws
         # every third grammar is built incrementally (queries between the additions), S's rules first in half of those
         rl = [{"l": r["l"], "r": _seq(r["r"])} for r in c["rules"]]
@@ -155,7 +157,7 @@ def run(chk):
                     problems.append("%s mode, input %s$: %s the language%s, parser %s" % (mode, "".join(w), "in" if inl else "not in",
                                     "" if mode == "full" else " (some prefix)", "accepts" if acc else "rejects"))
                     break
-                if cf and acc and term != exp[tw][1]:
+                if cf and acc and tw in exp and term != exp[tw][1]:
                     problems.append("%s mode, input %s$: value must be the fold of the unique tree %s, parser returned %s" % (mode, "".join(w), exp[tw][1], term))
                     break
             if not cf:
@@ -168,6 +170,12 @@ def run(chk):
         act_first = {n: sorted(r["first"][n]) for n in c["first"]}
         if exp_first != act_first:
             problems.append("FIRST sets: specification %s, Grammar::first_sets %s" % (exp_first, act_first))
+        # the same rules written into a plain Grammar with explicit epsilon symbols (FIRST of a non-terminal without rules is empty there too)
+        plain_first = {n: sorted(r["first_plain"][n]) for n in c["first"]}
+        if exp_first != plain_first:
+            problems.append("FIRST sets of the grammar written with explicit epsilon symbols: specification %s, Grammar::first_sets %s" % (exp_first, plain_first))
+        if r["first_of_eps"] != ["eps"] or ("a" in {x for rr in c["rules"] for x in _seq(rr["r"])} and sorted(r["first_of_eps_a"]) != ["a"]):
+            problems.append("first(<eps>) = %s (textbook: {eps}), first(<eps a>) = %s (textbook: {a})" % (r["first_of_eps"], r["first_of_eps_a"]))
         for mode in ("full", "pre"):
             if c["amb"] and not r[mode]["conflict"]:
                 problems.append("ambiguous grammar (two derivation trees for one string) but no conflict reported in %s mode" % mode)
